@@ -12,7 +12,8 @@ import numpy as np
 
 from pysph.base.utils import get_particle_array
 from pysph.solver.application import Application
-from pysph.sph.scheme import WCSPHScheme, TVFScheme
+from pysph.sph.integrator_step import IntegratorStep
+from pysph.sph.scheme import WCSPHScheme, TVFScheme, GasDScheme
 
 CASE = {}
 
@@ -39,6 +40,47 @@ def lattice(n, dx, jit, seedvals, x0=0.0, y0=0.0):
     return x, y
 
 
+def tf_of():
+    """final time; with adaptive time steps the run is ended by --max-steps
+    (the harness passes it), never by the final time"""
+    if CASE.get('adaptive'):
+        return CASE['dt'] * CASE['nsteps'] * 1000.0
+    return CASE['dt'] * CASE['nsteps']
+
+
+def set_gids(arrays):
+    """unique identities over all arrays; `gidperm` = [a, b] makes them a
+    permutation gid = (a*i + b) mod N of the creation order (a coprime to
+    N), so that sorting by gid is not sorting by index"""
+    import math
+    n = sum(pa.get_number_of_particles() for pa in arrays)
+    a, b = CASE.get('gidperm') or [1, 0]
+    a = a % n if n else 1
+    while n and math.gcd(a, n) != 1:
+        a += 1
+    start = 0
+    for pa in arrays:
+        k = pa.get_number_of_particles()
+        i = np.arange(start, start + k)
+        pa.gid[:] = (a * i + b) % n if n else i
+        start += k
+
+
+def add_marks(arrays):
+    """passive properties that only travel with their particle: an integer
+    and a strided one, both functions of the gid.  Re-ordering must apply
+    the same permutation to them."""
+    if not CASE.get('marks'):
+        return
+    for pa in arrays:
+        g = pa.gid.astype(float)
+        pa.add_property('c05_int', type='int')
+        pa.c05_int[:] = 3 * pa.gid.astype(np.int64) + 1
+        pa.add_property('c05_vec', stride=3)
+        pa.c05_vec[:] = np.column_stack([g, 0.5 * g, -g - 1.0]).ravel()
+        pa.add_output_arrays(['c05_int', 'c05_vec'])
+
+
 class Drop(Application):
     """Free-surface block of fluid with an initial straining velocity."""
     def create_scheme(self):
@@ -46,7 +88,7 @@ class Drop(Application):
         s = WCSPHScheme(['fluid'], [], dim=2, rho0=1.0, c0=20.0,
                         h0=1.3 * dx, hdx=1.3, gamma=7.0, alpha=0.2,
                         beta=0.0)
-        s.configure_solver(dt=CASE['dt'], tf=CASE['dt'] * CASE['nsteps'],
+        s.configure_solver(dt=CASE['dt'], tf=tf_of(),
                            pfreq=100000)
         return s
 
@@ -62,8 +104,9 @@ class Drop(Application):
                                 rho=np.ones_like(x))
         pa.u[:] = -2.0 * (x - x.mean())
         pa.v[:] = 2.0 * (y - y.mean())
-        pa.gid[:] = np.arange(len(x))
         self.scheme.setup_properties([pa])
+        set_gids([pa])
+        add_marks([pa])
         return [pa]
 
 
@@ -74,7 +117,7 @@ class Column(Application):
         s = WCSPHScheme(['fluid'], ['solid'], dim=2, rho0=1.0, c0=20.0,
                         h0=1.3 * dx, hdx=1.3, gamma=7.0, alpha=0.2,
                         beta=0.0, gy=-1.0)
-        s.configure_solver(dt=CASE['dt'], tf=CASE['dt'] * CASE['nsteps'],
+        s.configure_solver(dt=CASE['dt'], tf=tf_of(),
                            pfreq=100000)
         return s
 
@@ -96,9 +139,9 @@ class Column(Application):
                                    m=np.ones_like(xs) * dx * dx,
                                    h=np.ones_like(xs) * 1.3 * dx,
                                    rho=np.ones_like(xs))
-        fluid.gid[:] = np.arange(len(x))
-        solid.gid[:] = np.arange(len(xs)) + len(x)
         self.scheme.setup_properties([fluid, solid])
+        set_gids([fluid, solid])
+        add_marks([fluid, solid])
         return [fluid, solid]
 
 
@@ -114,7 +157,7 @@ class PeriodicBox(Application):
         dx = 0.05
         s = TVFScheme(['fluid'], [], dim=2, rho0=1.0, c0=10.0, nu=0.01,
                       p0=100.0, pb=100.0, h0=1.0 * dx)
-        s.configure_solver(dt=CASE['dt'], tf=CASE['dt'] * CASE['nsteps'],
+        s.configure_solver(dt=CASE['dt'], tf=tf_of(),
                            pfreq=100000)
         return s
 
@@ -125,18 +168,324 @@ class PeriodicBox(Application):
         x, y = lattice(n, dx, 0.1, CASE['vals'])
         fluid = get_particle_array(name='fluid', x=x, y=y,
                                    m=np.ones_like(x) * dx * dx,
-                                   h=np.ones_like(x) * 1.0 * dx,
+                                   h=var_h(len(x), 1.0 * dx, CASE['vals'])
+                                   if CASE.get('pvarh') else
+                                   np.ones_like(x) * 1.0 * dx,
                                    rho=np.ones_like(x))
         fluid.u[:] = -np.cos(2 * np.pi * x / L) * np.sin(2 * np.pi * y / L)
         fluid.v[:] = np.sin(2 * np.pi * x / L) * np.cos(2 * np.pi * y / L)
-        fluid.gid[:] = np.arange(len(x))
         self.scheme.setup_properties([fluid])
         fluid.add_property('V')
         fluid.V[:] = 1.0 / (dx * dx)
+        set_gids([fluid])
+        add_marks([fluid])
         return [fluid]
 
 
-PROBLEMS = dict(drop=Drop, column=Column, periodic=PeriodicBox)
+class Drop3D(Application):
+    """Free-surface block of fluid in three dimensions."""
+    def create_scheme(self):
+        dx = 0.05
+        s = WCSPHScheme(['fluid'], [], dim=3, rho0=1.0, c0=20.0,
+                        h0=1.3 * dx, hdx=1.3, gamma=7.0, alpha=0.2,
+                        beta=0.0)
+        s.configure_solver(dt=CASE['dt'], tf=tf_of(), pfreq=100000)
+        return s
+
+    def create_particles(self):
+        dx = 0.05
+        n = CASE['n']
+        x, y, z = np.mgrid[0:n, 0:n, 0:n]
+        k = len(CASE['vals'])
+        j = np.arange(n ** 3)
+        sv = np.array(CASE['vals'])
+        x = (x.ravel() + 0.5) * dx + 0.2 * dx * sv[(3 * j) % k]
+        y = (y.ravel() + 0.5) * dx + 0.2 * dx * sv[(5 * j + 1) % k]
+        z = (z.ravel() + 0.5) * dx + 0.2 * dx * sv[(11 * j + 3) % k]
+        pa = get_particle_array(name='fluid', x=x, y=y, z=z,
+                                m=np.ones_like(x) * dx ** 3,
+                                h=var_h(len(x), 1.3 * dx, CASE['vals'])
+                                if CASE.get('varh') else
+                                np.ones_like(x) * 1.3 * dx,
+                                rho=np.ones_like(x))
+        pa.u[:] = -2.0 * (x - x.mean())
+        pa.v[:] = 1.5 * (y - y.mean())
+        pa.w[:] = 0.5 * (z - z.mean())
+        self.scheme.setup_properties([pa])
+        set_gids([pa])
+        add_marks([pa])
+        return [pa]
+
+
+class Gas(Application):
+    """Gas blob with a hot spot; the smoothing lengths follow the density
+    (GasDScheme, --adaptive-h mpm: iterated group that updates the
+    neighbour search; gsph: two updates per evaluation).  `gper` makes the
+    box periodic in x (ghosts, a group over all particles); `gdim` = 1 puts
+    8n particles on a line."""
+    def _dim(self):
+        return CASE.get('gdim', 2)
+
+    def _nx(self):
+        return CASE['n'] * (8 if self._dim() == 1 else 1)
+
+    def create_domain(self):
+        if not CASE.get('gper'):
+            return None
+        from pysph.base.nnps import DomainManager
+        return DomainManager(xmin=0, xmax=self._nx() * 0.05,
+                             periodic_in_x=True)
+
+    def create_scheme(self):
+        s = GasDScheme(['fluid'], [], dim=self._dim(), gamma=1.4,
+                       kernel_factor=1.2,
+                       alpha1=1.0, alpha2=0.1, beta=2.0,
+                       adaptive_h_scheme=CASE.get('hscheme', 'mpm'),
+                       max_density_iterations=30,
+                       density_iteration_tolerance=1e-4,
+                       has_ghosts=bool(CASE.get('gper')))
+        s.configure_solver(dt=CASE['dt'], tf=tf_of(), pfreq=100000)
+        return s
+
+    def create_particles(self):
+        from pysph.base.utils import get_particle_array_gasd
+        dx = 0.05
+        n = CASE['n']
+        L = self._nx() * dx
+        if self._dim() == 1:
+            sv = np.array(CASE['vals'])
+            j = np.arange(self._nx())
+            x = (j + 0.5) * dx + 0.15 * dx * sv[(3 * j) % len(sv)]
+            y = np.zeros_like(x)
+            r2 = (x - 0.5 * L) ** 2
+            vol = dx
+        else:
+            x, y = lattice(n, dx, 0.15, CASE['vals'])
+            r2 = (x - 0.5 * L) ** 2 + (y - 0.5 * L) ** 2
+            vol = dx * dx
+        rho = 1.0 + 0.5 * np.cos(2 * np.pi * x / L)
+        p = 1.0 + 4.0 * np.exp(-r2 / (0.15 * L) ** 2)
+        pa = get_particle_array_gasd(
+            name='fluid', x=x, y=y, m=rho * vol, rho=rho,
+            h=1.2 * dx * np.ones_like(x), p=p, e=p / (0.4 * rho))
+        pa.u[:] = 0.3 * np.sin(2 * np.pi * x / L)
+        self.scheme.setup_properties([pa], clean=False)
+        set_gids([pa])
+        add_marks([pa])
+        return [pa]
+
+
+class Channel(Application):
+    """Fluid between two solid walls, periodic along the walls (TVF with
+    solid wall boundary conditions): ghosts of two arrays, per-particle h
+    in the fluid."""
+    def create_domain(self):
+        from pysph.base.nnps import DomainManager
+        return DomainManager(xmin=0, xmax=CASE['n'] * 0.05,
+                             periodic_in_x=True)
+
+    def create_scheme(self):
+        dx = 0.05
+        s = TVFScheme(['fluid'], ['wall'], dim=2, rho0=1.0, c0=10.0,
+                      nu=0.01, p0=100.0, pb=100.0, h0=1.0 * dx, gx=1.0)
+        s.configure_solver(dt=CASE['dt'], tf=tf_of(), pfreq=100000)
+        return s
+
+    def create_particles(self):
+        dx = 0.05
+        n = CASE['n']
+        ny = max(6, n // 2)
+        x, y = np.mgrid[0:n, 0:ny]
+        k = len(CASE['vals'])
+        j = np.arange(n * ny)
+        sv = np.array(CASE['vals'])
+        x = (x.ravel() + 0.5) * dx + 0.1 * dx * sv[(3 * j) % k]
+        y = (y.ravel() + 0.5) * dx + 0.1 * dx * sv[(5 * j + 1) % k]
+        fluid = get_particle_array(name='fluid', x=x, y=y,
+                                   m=np.ones_like(x) * dx * dx,
+                                   h=var_h(len(x), 1.0 * dx, CASE['vals'])
+                                   if CASE.get('pvarh') else
+                                   np.ones_like(x) * 1.0 * dx,
+                                   rho=np.ones_like(x))
+        H = ny * dx
+        fluid.u[:] = 0.5 * np.sin(np.pi * y / H)
+        fluid.v[:] = 0.1 * np.sin(2 * np.pi * x / (n * dx))
+        xw, yw = np.mgrid[0:n, -3:ny + 3]
+        xw = (xw.ravel() + 0.5) * dx
+        yw = (yw.ravel() + 0.5) * dx
+        keep = (yw < 0) | (yw > H)
+        xw, yw = xw[keep], yw[keep]
+        wall = get_particle_array(name='wall', x=xw, y=yw,
+                                  m=np.ones_like(xw) * dx * dx,
+                                  h=np.ones_like(xw) * 1.0 * dx,
+                                  rho=np.ones_like(xw))
+        self.scheme.setup_properties([fluid, wall])
+        for pa in (fluid, wall):
+            if 'V' not in pa.properties:
+                pa.add_property('V')
+            pa.V[:] = 1.0 / (dx * dx)
+        set_gids([fluid, wall])
+        add_marks([fluid, wall])
+        return [fluid, wall]
+
+
+class C05IOStep(IntegratorStep):
+    """Stepper for inlet/outlet particles that advances the second half of
+    a step from the current position: a particle recycled (or handed over)
+    after the first stage keeps its new place.  (The shipped InletStep
+    restarts from x0 and fits updates after the last stage only.)"""
+    def initialize(self, d_idx, d_x0, d_x):
+        d_x0[d_idx] = d_x[d_idx]
+
+    def stage1(self, d_idx, d_x, d_x0, d_u, dt):
+        d_x[d_idx] = d_x0[d_idx] + 0.5 * dt * d_u[d_idx]
+
+    def stage2(self, d_idx, d_x, d_u, dt):
+        d_x[d_idx] += 0.5 * dt * d_u[d_idx]
+
+
+class Pipe(Application):
+    """Stream of fluid fed by an inlet and drained by an outlet
+    (InletBase/OutletBase of pysph.sph.bc.inlet_outlet_manager): particles
+    enter and leave the arrays during the run.  Every particle that enters
+    the fluid gets a fresh identity derived from the identity of its inlet
+    original and the number of times that original was recycled, so that
+    identities do not depend on the order in which particles are stored."""
+    NL = 4
+
+    def create_scheme(self):
+        from pysph.sph.bc.inlet_outlet_manager import InletStep, OutletStep
+        dx = 0.05
+        s = WCSPHScheme(['fluid'], ['inlet', 'outlet'], dim=2, rho0=1.0,
+                        c0=10.0, h0=1.3 * dx, hdx=1.3, gamma=7.0,
+                        alpha=0.2, beta=0.0)
+        if 1 in CASE.get('iostages', [1, 2]):
+            steppers = dict(inlet=C05IOStep(), outlet=C05IOStep())
+        else:
+            steppers = dict(inlet=InletStep(), outlet=OutletStep())
+        s.configure_solver(dt=CASE['dt'], tf=tf_of(), pfreq=100000,
+                           extra_steppers=steppers)
+        return s
+
+    def _geom(self):
+        dx = 0.05
+        n = CASE['n']
+        return dx, n, max(6, n // 2), n * dx
+
+    def create_particles(self):
+        dx, n, ny, L = self._geom()
+        U = CASE.get('uin', 2.5)
+        sv = np.array(CASE['vals'])
+        k = len(sv)
+
+        def block(i0, i1, jit, off):
+            x, y = np.mgrid[i0:i1, 0:ny]
+            j = np.arange(x.size) + off
+            # the lattice is shifted towards the outlet: the first columns
+            # are 0.2 dx away from the planes they cross
+            x = (x.ravel() + 0.8) * dx + jit * dx * sv[(3 * j) % k]
+            y = (y.ravel() + 0.5) * dx + jit * dx * sv[(5 * j + 1) % k]
+            return x, y
+        arrays = []
+        for name, (i0, i1, jit) in (('fluid', (0, n, 0.2)),
+                                    ('inlet', (-self.NL, 0, 0.2)),
+                                    ('outlet', (n, n + self.NL, 0.0))):
+            x, y = block(i0, i1, jit, 7 * len(arrays))
+            if name == 'inlet':
+                # the recycled copies must stay inside the inlet zone
+                x = np.clip(x, -self.NL * dx + 0.05 * dx, -0.05 * dx)
+            if name == 'fluid':
+                x = np.clip(x, 0.02 * dx, L - 0.02 * dx)
+            pa = get_particle_array(
+                name=name, x=x, y=y, m=np.ones_like(x) * dx * dx,
+                h=var_h(len(x), 1.3 * dx, CASE['vals'])
+                if CASE.get('varh') and name == 'fluid' else
+                np.ones_like(x) * 1.3 * dx, rho=np.ones_like(x))
+            arrays.append(pa)
+        self.scheme.setup_properties(arrays)
+        for pa in arrays:
+            # a particle may enter the fluid between the two stages of a
+            # step: the start-of-step copies must be meaningful
+            H = ny * dx
+            pa.u[:] = U * (1.0 + 0.3 * np.sin(np.pi * pa.y / H))
+            pa.u0[:] = pa.u
+            pa.rho0[:] = 1.0
+            if pa.name == 'fluid':
+                pa.v[:] = 0.3 * np.sin(2 * np.pi * pa.x / L)
+                pa.rho[:] = 1.0 + 0.02 * np.cos(2 * np.pi * pa.x / L)
+            pa.add_property('x0')
+            pa.add_property('ioid', type='int')
+            pa.add_property('disp')
+            # generation counter of an inlet particle; -1 marks a particle
+            # that is not a fresh copy of an inlet particle
+            pa.add_property('c05_gen', type='int')
+            pa.c05_gen[:] = 0 if pa.name == 'inlet' else -1
+            pa.add_output_arrays(['c05_gen'])
+        set_gids(arrays)
+        add_marks(arrays)
+        self._ntot = sum(pa.get_number_of_particles() for pa in arrays)
+        return arrays
+
+    def _entered(self, fluid, inlet):
+        new = np.where(fluid.c05_gen >= 0)[0]
+        if len(new) == 0:
+            return
+        src = fluid.gid[new].astype(np.int64)
+        gen = fluid.c05_gen[new].astype(np.int64)
+        fluid.gid[new] = self._ntot * (1 + gen) + src
+        fluid.c05_gen[new] = -1
+        if 'c05_int' in fluid.properties:
+            g = fluid.gid[new].astype(float)
+            fluid.c05_int[new] = 3 * fluid.gid[new].astype(np.int64) + 1
+            v = fluid.c05_vec.reshape(-1, 3)
+            v[new] = np.column_stack([g, 0.5 * g, -g - 1.0])
+        inlet.c05_gen[np.isin(inlet.gid, src)] += 1
+
+    def create_inlet_outlet(self, particle_arrays):
+        from pysph.sph.bc.inlet_outlet_manager import (
+            InletInfo, OutletInfo, InletBase, OutletBase)
+        dx, n, ny, L = self._geom()
+        ii = InletInfo('inlet', normal=[-1.0, 0.0, 0.0],
+                       refpoint=[0.0, 0.0, 0.0], has_ghost=False)
+        ii.length = self.NL * dx
+        ii.dx = dx
+        oi = OutletInfo('outlet', normal=[1.0, 0.0, 0.0],
+                        refpoint=[L, 0.0, 0.0], has_ghost=False)
+        oi.length = self.NL * dx
+        oi.dx = dx
+        kernel = self.solver.kernel
+        stages = CASE.get('iostages', [1, 2])
+        inlet = InletBase(particle_arrays['inlet'], particle_arrays['fluid'],
+                          ii, kernel, dim=2, active_stages=stages,
+                          callback=self._entered)
+        outlet = OutletBase(particle_arrays['outlet'],
+                            particle_arrays['fluid'], oi, kernel, dim=2,
+                            active_stages=stages)
+        return [inlet, outlet]
+
+
+PROBLEMS = dict(drop=Drop, column=Column, periodic=PeriodicBox,
+                drop3d=Drop3D, gas=Gas, channel=Channel, pipe=Pipe)
+
+
+def read_dump(fname, out, prefix):
+    from pysph.solver.utils import load
+    data = load(fname)
+    for name, pa in data['arrays'].items():
+        gid = pa.get('gid', only_real_particles=True)
+        order = np.argsort(gid, kind='stable')
+        out['%s%s::gid' % (prefix, name)] = gid[order]
+        for p in sorted(pa.output_property_arrays or pa.properties.keys()):
+            if p in ('gid', 'pid', 'tag', 'orig_idx'):
+                # identities / storage indices, not particle state
+                continue
+            a = pa.get(p, only_real_particles=True)
+            stride = pa.stride.get(p, 1)
+            if len(a) == len(gid) * stride:
+                if stride > 1:
+                    a = a.reshape(len(gid), stride)
+                out['%s%s::%s' % (prefix, name, p)] = a[order]
+    return data
 
 
 def main():
@@ -145,26 +494,27 @@ def main():
     CASE.update(json.loads(case))
     outdir = outfile + '_output'
     app = PROBLEMS[problem](fname='run', output_dir=outdir)
-    app.run(args + ['-d', outdir, '--pfreq', '100000'])
-    from pysph.solver.utils import get_files, load
+    # the options of the case come last: they override the defaults
+    app.run(['-d', outdir, '--pfreq', '100000'] + args)
+    from pysph.solver.utils import get_files
     files = get_files(outdir, 'run')
-    data = load(files[-1])
     out = {}
-    for name, pa in data['arrays'].items():
-        nreal = pa.num_real_particles
-        gid = pa.get('gid', only_real_particles=True)
-        order = np.argsort(gid, kind='stable')
-        out['%s::gid' % name] = gid[order]
-        for p in sorted(pa.output_property_arrays or pa.properties.keys()):
-            if p in ('gid', 'pid', 'tag'):
-                continue
-            a = pa.get(p, only_real_particles=True)
-            if len(a) == len(gid):
-                out['%s::%s' % (name, p)] = a[order]
+    data = read_dump(files[-1], out, '')
+    if CASE.get('pfreq'):
+        # every intermediate dump is part of the observable result
+        for f in files[1:-1]:
+            it = os.path.splitext(os.path.basename(f))[0].split('_')[-1]
+            read_dump(f, out, '@%s/' % it)
     out['__t'] = np.array([data['solver_data']['t']])
+    out['__dt'] = np.array([data['solver_data']['dt']])
     out['__count'] = np.array([data['solver_data']['count']])
-    # numbers of particles in the first num_real slots that are not local
-    # would show a broken ordering; recorded for the oracle
+    out['__nfiles'] = np.array([len(files)])
+    if problem == 'pipe':
+        first = {}
+        read_dump(files[0], first, '')
+        out['__n0'] = np.array([sum(len(v) for k, v in first.items()
+                                    if k.endswith('::gid'))])
+        out['__fluid0'] = first['fluid::gid']
     np.savez(outfile, **out)
     import shutil
     shutil.rmtree(outdir, ignore_errors=True)
